@@ -1,10 +1,43 @@
-(* Property C03 — no input crashes or hangs the library.  Statements proved so far, about the
-   byte-level scanner model (parser.go readByte / skipSpace); the value reader's totality for whole
-   inputs and the SDL / request parsers are carried by the watchdogged correspondence in this commit
-   (see DESIGN.md section 7, C03: partial). *)
+(* Property C03 — no input crashes or hangs the library.  Statements about the byte-level model of
+   parser.go: the scanner (readByte / skipSpace) and the whole value reader (ParseValue,
+   ParseValueString: readValue with its string, token, number, list and object loops and the nesting
+   bound) terminate on every byte sequence and every failing reader, and never build a value nested
+   deeper than maxNesting.  The SDL and request parsers have no byte-level model: for them the
+   property is carried by the watchdogged correspondence (see DESIGN.md section 7, C03: partial). *)
 From Coq Require Import List Arith Bool Lia.
 Import ListNotations.
-From GG Require Import Text Text_proofs.
+From GG Require Import Text Text_proofs Text_total.
+
+(* The value reader of the model never runs out of fuel: for EVERY byte sequence bs, every reader
+   that ends (flt = false) or fails when exhausted (flt = true), and every answer of strconv.ParseFloat
+   (float_ok), ParseValue returns a value or an error.  The fuel of the model stands for Go's stack
+   and loop iterations: 2 * length bs + 8 always suffices, because every loop consumes a byte per
+   iteration or stops and every nesting level consumes its opening bracket. *)
+Theorem C03_value_reader_total :
+  forall float_ok bs flt, parse_value float_ok bs flt <> RFuel.
+Proof. exact parse_value_total. Qed.
+Print Assumptions C03_value_reader_total.
+
+(* ... from any scanner state, at any nesting depth, given twice the bytes still to read as fuel *)
+Theorem C03_read_value_total :
+  forall float_ok fuel d s, 2 * measure s + 1 < fuel -> read_value float_ok fuel d s <> RFuel.
+Proof. intros float_ok fuel. destruct (totals float_ok fuel) as [T _]. exact T. Qed.
+Print Assumptions C03_read_value_total.
+
+(* a value that starts at the scanner position is consumed: reading never returns a result without
+   having moved (the reason the list and object loops of readValue cannot spin) *)
+Theorem C03_read_value_consumes :
+  forall float_ok fuel d s v s', read_value float_ok fuel d s = ROk v s' ->
+    measure s' <= measure s /\ (starts s -> measure s' < measure s).
+Proof. intros float_ok fuel. destruct (measures float_ok fuel) as [Q _]. exact Q. Qed.
+Print Assumptions C03_read_value_consumes.
+
+(* no value the reader returns is nested deeper than maxNesting (10000): whatever walks the value
+   afterwards (coercion, printing, comparison - all recursive) has a bounded stack *)
+Theorem C03_value_depth_bounded :
+  forall float_ok bs flt v s, parse_value float_ok bs flt = ROk v s -> depth_pv v <= max_nesting.
+Proof. exact parse_value_depth. Qed.
+Print Assumptions C03_value_depth_bounded.
 
 (* readByte never diverges, never grows what is left to read, and strictly shrinks it whenever it
    delivers a byte other than 0 (0 = end of input): every loop of the parsers that reads a non-zero
